@@ -21,15 +21,21 @@ func fieldIs(p *Program, fv *types.Var, pkg, owner, name string) bool {
 
 // relLiteral is one Relationship value built by the library.
 type relLiteral struct {
-	Fn       *ssa.Function
-	Base     ssa.Value // the object (alloc or in-place address) the fields are stored to
-	ID       *ssa.Store
-	Type     string // constant type, "" if not constant
-	Target   ssa.Value
-	TargetSt *ssa.Store
-	List     string // field of Document the relationship is appended to ("" = fresh literal list)
-	Appended bool   // appended to an existing list (vs. element of a fresh slice literal)
-	Pos      token.Pos
+	Fn          *ssa.Function
+	Base        ssa.Value // the object (alloc or in-place address) the fields are stored to
+	ID          *ssa.Store
+	Type        string // constant type, "" if not constant
+	Target      ssa.Value
+	TargetSt    *ssa.Store
+	TypeVal     ssa.Value           // the value stored as the type (constant or not)
+	Home        *ssa.Function       // the function that contains the stores (== Fn unless specialised)
+	Via         ssa.CallInstruction // specialised copy: the call in Fn to Home for which Type was resolved
+	IDInFn      ssa.Value           // specialised copy: the value in Fn that equals the id (Home's result or the argument handed in)
+	IDArg       ssa.Value           // specialised copy: the id is computed by the caller and handed to Home
+	Specialised bool                // generic literal whose id comes in as a parameter: its per-call-site copies are checked instead
+	List        string              // field of Document the relationship is appended to ("" = fresh literal list)
+	Appended    bool                // appended to an existing list (vs. element of a fresh slice literal)
+	Pos         token.Pos
 }
 
 func collectRelLiterals(p *Program) []*relLiteral {
@@ -56,7 +62,7 @@ func collectRelLiterals(p *Program) []*relLiteral {
 			}
 			rl := byBase[base]
 			if rl == nil {
-				rl = &relLiteral{Fn: fn, Base: base, Pos: st.Pos()}
+				rl = &relLiteral{Fn: fn, Home: fn, Base: base, Pos: st.Pos()}
 				byBase[base] = rl
 				order = append(order, base)
 			}
@@ -64,6 +70,7 @@ func collectRelLiterals(p *Program) []*relLiteral {
 			case "ID":
 				rl.ID = st
 			case "Type":
+				rl.TypeVal = st.Val
 				if s, ok := constString(st.Val); ok {
 					rl.Type = s
 				}
@@ -115,8 +122,188 @@ func collectRelLiterals(p *Program) []*relLiteral {
 			out = append(out, rl)
 		}
 	}
-	sort.Slice(out, func(i, j int) bool { return out[i].Pos < out[j].Pos })
+	out = append(out, specialiseRelLiterals(p, out)...)
+	sort.SliceStable(out, func(i, j int) bool { return out[i].Pos < out[j].Pos })
 	return out
+}
+
+// specialiseRelLiterals: a relationship built by a shared helper whose type is not a constant there
+// — registerPart(kind partKind, …) storing kind.relType, or a plain string parameter — stands for one
+// relationship per call site, typed by what that call passes (a constant, or a field of an
+// immutable package-level descriptor).  The copy lives in the caller (Fn), keeps Home = the helper,
+// and knows which value of the caller carries the new id when the helper returns it.
+func specialiseRelLiterals(p *Program, lits []*relLiteral) []*relLiteral {
+	var out []*relLiteral
+	callers := p.callersIndex()
+	for _, rl := range lits {
+		if rl.ID == nil {
+			continue
+		}
+		h := rl.Home
+		// which of type / id / target come in through parameters of the helper?
+		var typePar *ssa.Parameter
+		typeField := -1
+		if rl.Type == "" && rl.TypeVal != nil {
+			if par, fi := paramFieldOf(rl.TypeVal); par != nil && par.Parent() == h {
+				typePar, typeField = par, fi
+			}
+		}
+		idPar, _ := rl.ID.Val.(*ssa.Parameter)
+		tgtPar, _ := rl.Target.(*ssa.Parameter)
+		if typePar == nil && idPar == nil && tgtPar == nil {
+			continue
+		}
+		if rl.Type == "" && typePar == nil {
+			continue
+		}
+		// which result of the helper is the id?
+		idRes := -1
+		for _, ret := range returnsOf(h) {
+			for i := range ret.Results {
+				if retResult(ret, i) == rl.ID.Val {
+					idRes = i
+				}
+			}
+		}
+		for _, caller := range sortedFuncs(callers[h]) {
+			allInstrs(caller, func(in ssa.Instruction) {
+				c, ok := in.(ssa.CallInstruction)
+				if !ok || staticCallee(c) != h {
+					return
+				}
+				args := c.Common().Args
+				cp := *rl
+				cp.Fn, cp.Via = caller, c
+				if typePar != nil {
+					pi := paramIndex(h, typePar)
+					if pi >= len(args) {
+						return
+					}
+					typ, ok := constOrGlobalField(p, args[pi], typeField)
+					if !ok {
+						return
+					}
+					cp.Type = typ
+				}
+				if idPar != nil {
+					if pi := paramIndex(h, idPar); pi < len(args) {
+						cp.IDInFn, cp.IDArg = args[pi], args[pi]
+					}
+				} else if cv, ok := c.(*ssa.Call); ok && idRes >= 0 {
+					if h.Signature.Results().Len() == 1 {
+						cp.IDInFn = cv
+					} else if cv.Referrers() != nil {
+						for _, u := range *cv.Referrers() {
+							if ex, ok := u.(*ssa.Extract); ok && ex.Index == idRes {
+								cp.IDInFn = ex
+							}
+						}
+					}
+				}
+				if tgtPar != nil {
+					if pi := paramIndex(h, tgtPar); pi < len(args) {
+						cp.Target = args[pi]
+					}
+				}
+				out = append(out, &cp)
+			})
+		}
+		if len(out) > 0 && idPar != nil {
+			rl.Specialised = true
+		}
+	}
+	return out
+}
+
+// paramFieldOf: v is a parameter (fieldIdx -1) or field fieldIdx read from a struct-typed /
+// pointer-to-struct parameter.
+func paramFieldOf(v ssa.Value) (*ssa.Parameter, int) {
+	switch x := v.(type) {
+	case *ssa.Parameter:
+		return x, -1
+	case *ssa.Field:
+		if par, ok := x.X.(*ssa.Parameter); ok {
+			return par, x.Field
+		}
+	case *ssa.UnOp:
+		if x.Op == token.MUL {
+			if fa, ok := x.X.(*ssa.FieldAddr); ok {
+				if par, ok := fa.X.(*ssa.Parameter); ok {
+					return par, fa.Field
+				}
+				// a by-value struct parameter spilled to a local: `*t0 = kind; &t0.relType`
+				if al, ok := fa.X.(*ssa.Alloc); ok && al.Referrers() != nil {
+					var par *ssa.Parameter
+					n := 0
+					for _, u := range *al.Referrers() {
+						if st, ok := u.(*ssa.Store); ok && st.Addr == ssa.Value(al) {
+							n++
+							par, _ = st.Val.(*ssa.Parameter)
+						}
+					}
+					if n == 1 && par != nil {
+						return par, fa.Field
+					}
+				}
+			}
+		}
+	}
+	return nil, 0
+}
+
+// constOrGlobalField: the string constant that arg (fieldIdx < 0) or field fieldIdx of arg denotes,
+// when arg is a constant or (a load / the address of) a package-level struct variable that is only
+// written by its initialiser.
+func constOrGlobalField(p *Program, arg ssa.Value, fieldIdx int) (string, bool) {
+	if fieldIdx < 0 {
+		return constString(arg)
+	}
+	var g *ssa.Global
+	switch x := arg.(type) {
+	case *ssa.Global:
+		g = x
+	case *ssa.UnOp:
+		if x.Op == token.MUL {
+			g, _ = x.X.(*ssa.Global)
+		}
+	}
+	if g == nil {
+		return "", false
+	}
+	var val string
+	found, dirty := false, false
+	for fn := range p.Funcs {
+		isInit := fn.Name() == "init" && fn.Parent() == nil
+		allInstrs(fn, func(in ssa.Instruction) {
+			st, ok := in.(*ssa.Store)
+			if !ok {
+				return
+			}
+			if st.Addr == ssa.Value(g) {
+				dirty = true // whole-variable store: not handled
+				return
+			}
+			fa, ok := st.Addr.(*ssa.FieldAddr)
+			if !ok || fa.X != ssa.Value(g) {
+				return
+			}
+			if !isInit {
+				dirty = true
+				return
+			}
+			if fa.Field == fieldIdx {
+				if s, ok := constString(st.Val); ok && !found {
+					val, found = s, true
+				} else {
+					dirty = true
+				}
+			}
+		})
+	}
+	if dirty || !found {
+		return "", false
+	}
+	return val, true
 }
 
 func listName(chain []*types.Var) string {
@@ -150,6 +337,12 @@ func freshRelID(r *Run, onlyKind string, min int) {
 	sl := newSlicer(p)
 	n := 0
 	for _, rl := range lits {
+		if rl.Via != nil && rl.IDArg == nil {
+			continue // per-call-site copy of a helper's literal: the helper's own literal is checked
+		}
+		if rl.Via == nil && rl.Specialised {
+			continue // the id is computed by each caller: the per-call-site copies are checked
+		}
 		kind := relKind(rl.Type)
 		if kind == "" {
 			kind = "?"
@@ -181,7 +374,11 @@ func freshRelID(r *Run, onlyKind string, min int) {
 			continue
 		}
 		n++
-		res := sl.Slice(rl.ID.Val)
+		idVal := rl.ID.Val
+		if rl.IDArg != nil {
+			idVal = rl.IDArg
+		}
+		res := sl.Slice(idVal)
 		dep := res.readsField(p, pkgDoc, "Relationship", "ID")
 		fp := res.fingerprint(p)
 		key := fmt.Sprintf("relid:%s:%s#%s", shortName(rl.Fn), kind, fp)
@@ -291,6 +488,14 @@ func collectPartStores(p *Program) []partStore {
 	return out
 }
 
+func distinctPartKeys(ps []partStore) int {
+	seen := map[string]bool{}
+	for _, s := range ps {
+		seen[s.Key.Pattern()] = true
+	}
+	return len(seen)
+}
+
 func ruleRelAttach(r *Run) { relAttach(r, nil, 5) }
 
 func ruleRelAttachImage(r *Run) { relAttach(r, map[string]bool{"image": true}, 1) }
@@ -299,7 +504,7 @@ func relAttach(r *Run, kinds map[string]bool, min int) {
 	p := r.P
 	lits := collectRelLiterals(p)
 	parts := collectPartStores(p)
-	r.Min("part_stores", len(parts), 25)
+	r.Min("part_store_key_patterns", distinctPartKeys(parts), 12) // distinct kinds of part written; robust to merging sibling store sites into one helper
 	n := 0
 	for _, rl := range lits {
 		if rl.Type == "" {
@@ -325,7 +530,7 @@ func relAttach(r *Run, kinds map[string]bool, min int) {
 		if !strings.HasPrefix(list, "relationships") && !strings.HasPrefix(list, "documentRelationships") {
 			// built into a local list that the same function serialises into a relationship part
 			for _, ps := range parts {
-				if ps.Fn != rl.Fn {
+				if ps.Fn != rl.Home {
 					continue
 				}
 				switch k, _ := ps.Key.isConst(); k {
@@ -339,7 +544,7 @@ func relAttach(r *Run, kinds map[string]bool, min int) {
 		if !strings.HasPrefix(list, "relationships") && !strings.HasPrefix(list, "documentRelationships") {
 			// built by a helper that returns it (fallbackPackageRelationships(), missingStylesRelationship()):
 			// the owner is whatever the callers do with the result
-			if l2 := ownerViaCallers(p, parts, rl.Fn, 0); l2 != "" {
+			if l2 := ownerViaCallers(p, parts, rl.Home, 0); l2 != "" {
 				list = l2
 			}
 		}
@@ -354,7 +559,7 @@ func relAttach(r *Run, kinds map[string]bool, min int) {
 		found := false
 		var where string
 		for _, ps := range parts {
-			if _, isC := want.isConst(); !isC && ps.Fn != rl.Fn {
+			if _, isC := want.isConst(); !isC && ps.Fn != rl.Home && ps.Fn != rl.Fn {
 				continue // symbolic targets must match a store in the same operation
 			}
 			if ps.Key.equal(want) {
@@ -476,12 +681,23 @@ func refFlow(r *Run, wantHF, wantImg bool) {
 				okFlow := false
 				skipped := false
 				for _, rl := range byFn[fn] {
-					if relKind(rl.Type) == h.kind && rl.ID.Val == arg {
+					if relKind(rl.Type) != h.kind {
+						continue
+					}
+					if rl.Via == nil && rl.ID.Val == arg {
 						okFlow = true
 						// …and that relationship is created on EVERY path that reaches the reference
 						// (a path that re-uses an existing id skips the creation: the id then belongs to a
 						// relationship whose target nobody checked)
 						if !mustPassThrough(fn, c, []ssa.Instruction{rl.ID}) {
+							skipped = true
+						}
+					}
+					// created by a shared helper that returns the new id: the argument is that result,
+					// and the helper creates the relationship on every path on which it succeeds
+					if rl.Via != nil && rl.IDInFn != nil && rl.IDInFn == arg {
+						okFlow = true
+						if !mustPassThrough(fn, c, []ssa.Instruction{rl.Via}) || !createsOnSuccess(p, rl.Home, rl.ID) {
 							skipped = true
 						}
 					}
@@ -548,6 +764,20 @@ func refFlow(r *Run, wantHF, wantImg bool) {
 		})
 	}
 	r.Min("blip_embed_sites", nEmb, 1)
+}
+
+// createsOnSuccess: every return of h that may report success is preceded by instruction st.
+func createsOnSuccess(p *Program, h *ssa.Function, st ssa.Instruction) bool {
+	ei := failIndex(h.Signature)
+	for _, ret := range returnsOf(h) {
+		if ei >= 0 && !mayReportSuccess(p, h, ret, ei) {
+			continue
+		}
+		if !mustPassThrough(h, ret, []ssa.Instruction{st}) {
+			return false
+		}
+	}
+	return true
 }
 
 // ---------------------------------------------------------------------------
@@ -638,6 +868,16 @@ func ruleMediaFresh(r *Run) {
 				}
 			}
 		})
+		// …or a helper that increments the counter on every path (an allocation function)
+		allInstrs(ps.Fn, func(in ssa.Instruction) {
+			c, ok := in.(*ssa.Call)
+			if !ok {
+				return
+			}
+			if cal := staticCallee(c); cal != nil && p.inModule(cal) && alwaysIncrements(p, cal, "nextImageID", 0) {
+				incs = append(incs, c)
+			}
+		})
 		r.Check("counter-inc", "media:"+shortName(ps.Fn), ps.MU.Pos(), len(incs) > 0 && mustPassThrough(ps.Fn, ps.MU, incs),
 			"nextImageID must be incremented on every path before the media part is stored")
 	}
@@ -652,6 +892,48 @@ func ruleMediaFresh(r *Run) {
 		r.Check("media-bytes", shortName(ps.Fn), ps.MU.Pos(), isParam,
 			"the media part must hold the caller's image bytes unmodified (the stored value is the data parameter itself)")
 	}
+}
+
+// alwaysIncrements: every path of fn from entry to a return passes a store `x.field = x.field + k`
+// (k > 0) of the Document counter, directly or in a callee with the same property.
+func alwaysIncrements(p *Program, fn *ssa.Function, field string, depth int) bool {
+	if depth > 2 || len(fn.Blocks) == 0 {
+		return false
+	}
+	var incs []ssa.Instruction
+	allInstrs(fn, func(in ssa.Instruction) {
+		switch x := in.(type) {
+		case *ssa.Store:
+			fv, _ := fieldOfAddr(x.Addr)
+			if !fieldIs(p, fv, pkgDoc, "Document", field) {
+				return
+			}
+			if bo, ok := x.Val.(*ssa.BinOp); ok && bo.Op == token.ADD {
+				if c, ok := constInt(bo.Y); ok && c > 0 {
+					if ch, _ := valueChain(bo.X); len(ch) > 0 && fieldIs(p, ch[len(ch)-1], pkgDoc, "Document", field) {
+						incs = append(incs, x)
+					}
+				}
+			}
+		case *ssa.Call:
+			if cal := staticCallee(x); cal != nil && cal != fn && p.inModule(cal) && alwaysIncrements(p, cal, field, depth+1) {
+				incs = append(incs, x)
+			}
+		}
+	})
+	if len(incs) == 0 {
+		return false
+	}
+	rets := returnsOf(fn)
+	if len(rets) == 0 {
+		return false
+	}
+	for _, ret := range rets {
+		if !mustPassThrough(fn, ret, incs) {
+			return false
+		}
+	}
+	return true
 }
 
 // mustPassThrough: every path from fn's entry to target contains one of the instructions in via.
@@ -800,6 +1082,63 @@ func ruleKeyedInsert(r *Run, only map[string]bool) {
 						}
 					}
 				})
+				// …or the search lives in a finder helper — find(coll, key) returning the element
+				// (nil when absent) or a found flag — whose "found" branch here returns or overwrites
+				if !guarded {
+					allInstrs(fn, func(in2 ssa.Instruction) {
+						c2, ok := in2.(*ssa.Call)
+						if !ok || guarded {
+							return
+						}
+						cal := staticCallee(c2)
+						if cal == nil || !p.inModule(cal) || !isKeyFinder(p, cal, kc.owner, kc.field, kc.elem, kc.key) {
+							return
+						}
+						// the tested value: the call result itself or one of its components
+						cands := []ssa.Value{c2}
+						if c2.Referrers() != nil {
+							for _, u := range *c2.Referrers() {
+								if ex, ok := u.(*ssa.Extract); ok {
+									cands = append(cands, ex)
+								}
+							}
+						}
+						for _, cv := range cands {
+							var foundSuccs []struct{ from, to *ssa.BasicBlock }
+							if _, isBool := cv.Type().Underlying().(*types.Basic); isBool {
+								if cv.Referrers() != nil {
+									for _, u := range *cv.Referrers() {
+										if iff, ok := u.(*ssa.If); ok {
+											foundSuccs = append(foundSuccs, struct{ from, to *ssa.BasicBlock }{iff.Block(), iff.Block().Succs[0]})
+										}
+									}
+								}
+							} else {
+								nilTests(fn, cv, func(b, nilS, nonNilS *ssa.BasicBlock) {
+									foundSuccs = append(foundSuccs, struct{ from, to *ssa.BasicBlock }{b, nonNilS})
+								})
+							}
+							for _, fs := range foundSuccs {
+								region := edgeRegion(fs.from, fs.to)
+								if region[st.Block()] {
+									continue
+								}
+								for b := range region {
+									for _, x := range b.Instrs {
+										switch y := x.(type) {
+										case *ssa.Return:
+											guarded = true
+										case *ssa.Store:
+											if ch2, _ := addrChain(y.Addr); len(ch2) > 0 {
+												guarded = true
+											}
+										}
+									}
+								}
+							}
+						}
+					})
+				}
 				r.Check("keyed-insert", fmt.Sprintf("%s:%s.%s", shortName(fn), kc.owner, kc.field), st.Pos(), guarded,
 					fmt.Sprintf("%s appends to %s.%s (unique by %s) without first looking for an element with the same %s: a second call for the same key leaves two entries",
 						shortName(fn), kc.owner, kc.field, kc.key, kc.key))
@@ -807,6 +1146,75 @@ func ruleKeyedInsert(r *Run, only map[string]bool) {
 		}
 	}
 	r.Min("keyed_appends", n, 2)
+}
+
+// isKeyFinder: fn searches the keyed collection owner.field for an element whose key equals
+// something and reports "found" through a non-nil / true result in the equal branch only: every
+// return outside the equal branch of the key comparison yields nil / false.
+func isKeyFinder(p *Program, fn *ssa.Function, owner, field, elem, key string) bool {
+	if len(fn.Blocks) == 0 || fn.Signature.Results().Len() == 0 {
+		return false
+	}
+	found := map[*ssa.BasicBlock]bool{}
+	any := false
+	allInstrs(fn, func(in ssa.Instruction) {
+		bo, ok := in.(*ssa.BinOp)
+		if !ok || (bo.Op != token.EQL && bo.Op != token.NEQ) || bo.Referrers() == nil {
+			return
+		}
+		for _, side := range []ssa.Value{bo.X, bo.Y} {
+			ch, _ := valueChain(side)
+			if len(ch) < 1 || !fieldIs(p, ch[len(ch)-1], pkgDoc, elem, key) {
+				continue
+			}
+			if !newSlicer(p).Slice(side).readsField(p, pkgDoc, owner, field) {
+				continue
+			}
+			// the comparison may be one conjunct of the condition (ref != nil && ref.Type == t):
+			// follow the If that consumes it
+			for _, u := range *bo.Referrers() {
+				iff, ok := u.(*ssa.If)
+				if !ok {
+					continue
+				}
+				eq := iff.Block().Succs[0]
+				if bo.Op == token.NEQ {
+					eq = iff.Block().Succs[1]
+				}
+				for b := range edgeRegion(iff.Block(), eq) {
+					found[b] = true
+				}
+				found[eq] = true
+				any = true
+			}
+		}
+	})
+	if !any {
+		return false
+	}
+	sawFound := false
+	for _, ret := range returnsOf(fn) {
+		isFound := false
+		for i := range ret.Results {
+			v := retResult(ret, i)
+			if isNilConst(v) {
+				continue
+			}
+			if c, ok := v.(*ssa.Const); ok {
+				if c.Value == nil || c.Value.String() == "false" || c.Value.String() == "-1" || c.Value.String() == "0" || c.Value.String() == `""` {
+					continue
+				}
+			}
+			isFound = true
+		}
+		if isFound && !found[ret.Block()] {
+			return false // reports "found" without having matched the key
+		}
+		if isFound {
+			sawFound = true
+		}
+	}
+	return sawFound
 }
 
 // ---------------------------------------------------------------------------
